@@ -290,7 +290,11 @@ def _(vm, a, ci):
         p = a[1]
         pt = to_sym(S(vm, p)) if not (isinstance(p, int) or is_sym(p)) else (zs(chr(p)) if isinstance(p, int) else char_to_str(p))
         if m == 'starts_with': return z3.PrefixOf(pt, s0.term)
-        if m == 'ends_with': return z3.SuffixOf(pt, s0.term)
+        if m == 'ends_with':
+            if z3.is_string_value(z3.simplify(pt)) and zstr(z3.simplify(pt)) == '\n':
+                r = _ends_with_newline(vm, z3.simplify(s0.term))
+                if r is not None: return r
+            return z3.SuffixOf(pt, s0.term)
         if m == 'contains': return z3.Contains(s0.term, pt)
         raise Unmodelled(f'str::{m} on an opaque symbolic string')
     s = _bounded(vm, s0)
@@ -344,6 +348,24 @@ def _(vm, a, ci):
             if k is not None: return some(tup(_view(s, 0, i), _view(s, i + k, n)))
         return NONE()
     raise Unmodelled('str::' + m)
+
+
+def _ends_with_newline(vm, t):
+    """syntactic decision of `t ends with a line feed` for terms built from literals and harness strings registered as
+    free of line feeds (vm.no_newline: set of term ids) -- keeps z3's sequence solver out of the feasibility checks"""
+    no_nl = getattr(vm, 'no_newline', {})
+    if z3.is_string_value(t): return zstr(t).endswith('\n')
+    if t.get_id() in no_nl: return False
+    if t.decl().kind() == z3.Z3_OP_SEQ_CONCAT:
+        for i in range(t.num_args() - 1, -1, -1):
+            a = t.arg(i)
+            if z3.is_string_value(a):
+                if zstr(a) == '': continue
+                return zstr(a).endswith('\n')
+            if a.get_id() in no_nl:
+                return None if True else False      # a registered string may be empty: the decision then rests on what precedes it
+            return None
+    return None
 
 
 @path('<impl str>::trim', '<impl str>::trim_start', '<impl str>::trim_end')
